@@ -39,8 +39,7 @@ def check(model, R, tier):
     R.rule('C20.EVALUATOR', 'Evaluator mode dispatch is exhaustive with a raising fall-through; accuracy = correct / total; compute() resets the accumulators', floor=4)
     R.rule('C20.DEFASSIGN', 'names used after a loop are definitely assigned on every path (a loader with zero batches runs the loop zero times)', floor=2)
     fit = model.func(TR + '.fit')
-    tr = model.func(TR + '.__train')
-    va = model.func(TR + '.__validate')
+    tr, va = _trainer_roles(model)
     te = model.func(TR + '.test')
     try:
         check_trainer(model, R)
@@ -51,17 +50,23 @@ def check(model, R, tier):
     except Incomplete as u:
         R.incomplete_at('C20.EVALUATOR', TMOD + '.Evaluator', str(u))
     # ---------------------------------------------------------------- DEFASSIGN
+    # (findings are keyed by the ROLE of the method and of the variable, not by their private names: Trainer.__train / __validate are whatever fit calls)
+    role = {id(tr): TR + '.__train', id(va): TR + '.__validate'}
     for f in (tr, va, te, fit):
         ub = maybe_unbound(f.node)
         seen = set()
+        where = role.get(id(f), f.qualname)
         for name, st in ub:
             if (name,) in seen:
                 continue
             seen.add((name,))
-            R.ob('C20.DEFASSIGN', f.qualname, 'local `%s` read after a loop that may run zero times' % name, False,
+            loop_var = any(isinstance(n_, ast.For) and any(isinstance(x, ast.Name) and x.id == name for x in ast.walk(n_.target)) for n_ in ast.walk(f.node)) \
+                and not any(isinstance(n_, (ast.Assign, ast.AugAssign)) and any(isinstance(x, ast.Name) and x.id == name and isinstance(x.ctx, ast.Store) for x in ast.walk(n_)) for n_ in ast.walk(f.node))
+            what = 'loop variable of the batch loop' if loop_var else 'local `%s`' % name
+            R.ob('C20.DEFASSIGN', where, '%s read after a loop that may run zero times' % what, False,
                  'local `%s` may be unbound here: a loader with zero batches (len(dataset) < batch_size) runs the loop zero times -> UnboundLocalError' % name, '%s:%d' % (f.mod.relpath, st.lineno))
         if not ub:
-            R.ob('C20.DEFASSIGN', f.qualname, 'all locals definitely assigned', True, '', f.loc)
+            R.ob('C20.DEFASSIGN', where, 'all locals definitely assigned', True, '', f.loc)
     return dict(
         explanation='Step counts and modes are orderings on the CFG of fit/__train/__validate/test. Decides: one zero_grad -> backward(loss of this batch) -> step per iteration, unconditionally and in order; '
                     'one __train per epoch; train mode dominating the batch loop; eval mode + no_grad region without any update call for validation/test; history bookkeeping (one entry per epoch per key, val_ prefix, '
@@ -125,7 +130,7 @@ def check_evaluator(model, R):
     base = {'self.%s' % k: v for k, v in consts.items()}
     stp = model.func(TMOD + '.Evaluator.step')
     rep = model.func(TMOD + '.Evaluator.report')
-    cp = model.func(TMOD + '.Evaluator.__compute')
+    cp = _private_callee(model, stp, arg_count=3) or model.func(TMOD + '.Evaluator.__compute')
     comp = model.func(TMOD + '.Evaluator.compute')
 
     def acc(yt, yp):
@@ -160,7 +165,11 @@ def check_evaluator(model, R):
     for accb, cb, pref in itertools.product((True, False), (None, A('callback')), (None, A('prefix'), 'val')):
         rec = []
         ch, cm = _ev_hooks(rec)
-        outs = PE(model, preds={'self.accuracy_bool': accb}, call_hook=ch, compare_hook=cm, atoms_not_none=True).paths(cp, {'y_true': A('yt'), 'y_pred': A('yp'), 'prefix': pref, 'callback': cb})
+        # the private helper's parameters by position: (labels, predictions, prefix, callback) - the callback may be keyword-only
+        cps = cp.pos_params[1:] + [a_.arg for a_ in cp.node.args.kwonlyargs]
+        if len(cps) < 4:
+            raise Incomplete('%s: expected (labels, predictions, prefix, callback), found %s' % (cp.qualname, cps))
+        outs = PE(model, preds={'self.accuracy_bool': accb}, call_hook=ch, compare_hook=cm, atoms_not_none=True).paths(cp, {cps[0]: A('yt'), cps[1]: A('yp'), cps[2]: pref, cps[3]: cb})
         exp = ([('accuracy', acc('yt', 'yp'))] if accb else []) + ([('cbm', A('cbv'))] if cb is not None else [])
         if pref is not None:
             exp = [(('val_' + k) if pref == 'val' else FStr([pref, '_' + k]), v) for k, v in exp]
@@ -195,6 +204,45 @@ class _Obj:
 
     def __repr__(self):
         return self.text
+
+
+def _private_callee(model, caller, arg_name=None, arg_count=None, exclude=()):
+    """the private method (self.__x / self._x) of the caller's class that `caller` calls with `arg_name` as its first argument (or with arg_count arguments):
+    private method names are not API - the rules find the training / validation / metric helpers by the role they play"""
+    cls = caller.cls
+    hits = []
+    for c in ast.walk(caller.node):
+        if isinstance(c, ast.Call) and isinstance(c.func, ast.Attribute) and isinstance(c.func.value, ast.Name) and c.func.value.id == caller.pos_params[0] \
+                and c.func.attr.startswith('_') and not c.func.attr.endswith('__'):
+            names = [c.func.attr] + (['_%s%s' % (cls.name.lstrip('_'), c.func.attr)] if c.func.attr.startswith('__') else [])
+            m = next((cls.methods[n] for n in names if n in cls.methods), None)
+            if m is None or m.name in exclude:
+                continue
+            if arg_name is not None and not (c.args and isinstance(c.args[0], ast.Name) and c.args[0].id == arg_name):
+                continue
+            if arg_count is not None and len(c.args) + len(c.keywords) < arg_count:
+                continue
+            if m not in hits:
+                hits.append(m)
+    return hits[0] if len(hits) == 1 else None
+
+
+def _self_call_texts(f):
+    """the texts under which a call of method f on self appears in an evaluated trace"""
+    n = f.name
+    out = {'self.' + n}
+    if n.startswith('__') and f.cls is not None:
+        out.add('self._%s%s' % (f.cls.name.lstrip('_'), n))
+    return out
+
+
+def _trainer_roles(model):
+    fit = model.func(TR + '.fit')
+    tr = _private_callee(model, fit, arg_name=fit.pos_params[1]) or model.funcs.get(TR + '.__train')
+    va = _private_callee(model, fit, arg_name='validation_loader') or model.funcs.get(TR + '.__validate')
+    if tr is None or va is None:
+        raise Incomplete('the private training / validation methods called by Trainer.fit were not found')
+    return tr, va
 
 
 def _trainer_pe(model, f, with_evaluator, extra_atoms=None):
@@ -256,8 +304,8 @@ def _segments(calls):
 
 def check_trainer(model, R):
     fit = model.func(TR + '.fit')
-    tr = model.func(TR + '.__train')
-    va = model.func(TR + '.__validate')
+    tr, va = _trainer_roles(model)
+    TRN, VAN = _self_call_texts(tr), _self_call_texts(va)
     te = model.func(TR + '.test')
     A = P.atom
     # ---------------------------------------------------------------- __train : STEP / TRAINMODE / epoch loss
@@ -367,10 +415,10 @@ def check_trainer(model, R):
 
         def hook2(pe_, name, e, args, kw, env, func, depth, base_hook=base_hook, cnt=cnt):
             t = pe_.calls[-1][0]
-            if t in ('self.__train', 'self._Trainer__train'):
+            if t in TRN:
                 cnt['t'] += 1
                 return [('loss', A('tl%d' % cnt['t'])), ('tm', A('tm%d' % cnt['t']))]
-            if t in ('self.__validate', 'self._Trainer__validate'):
+            if t in VAN:
                 cnt['v'] += 1
                 return [('val_loss', A('vl%d' % cnt['v'])), ('vm', A('vm%d' % cnt['v']))]
             return base_hook(pe_, name, e, args, kw, env, func, depth)
@@ -394,8 +442,8 @@ def check_trainer(model, R):
                 continue
             n_paths += 1
             k0 = n_paths * 2 - 1
-            tl = [c for c in o.calls if c[0] in ('self.__train', 'self._Trainer__train')]
-            vl = [c for c in o.calls if c[0] in ('self.__validate', 'self._Trainer__validate')]
+            tl = [c for c in o.calls if c[0] in TRN]
+            vl = [c for c in o.calls if c[0] in VAN]
             if not isinstance(o.value, dict):
                 bad.append('returned %r' % (o.value,))
                 continue
@@ -438,8 +486,8 @@ def check_trainer(model, R):
         for o in rets:
             seg = _segments(o.calls)
             epoch = [x for x in seg if x[0] == '<loop>' and 'epochs' in x[1][-1] and len(x[1]) == 1]
-            trains = [x for x in seg if x[0] in ('self.__train', 'self._Trainer__train')]
-            vals = [x for x in seg if x[0] in ('self.__validate', 'self._Trainer__validate')]
+            trains = [x for x in seg if x[0] in TRN]
+            vals = [x for x in seg if x[0] in VAN]
             recs = [x for x in seg if x[0] == 'record_metrics']
             if not (len(epoch) == 1 and len(trains) == 1 and len(trains[0][1]) == 1 and 'epochs' in trains[0][1][0] and _aname(trains[0][3][0]) == fit.pos_params[1]):
                 bad_step.append('__train calls %s' % [(x[0], x[1]) for x in trains])
